@@ -284,6 +284,14 @@ def MergeFn.norm (m : MergeFn) : MergeFn := if m.crit.hasTol then m else { m wit
 /-- the observable `tolerance` property -/
 def MergeFn.tolerance? (m : MergeFn) : Option Rat := if m.crit.hasTol then some m.tol else none
 
+/-- the tolerance a criterion selected by name receives: the one passed, else the one in force,
+else the default 0.05 -/
+def tolChoice (tol cur : Option Rat) : Rat :=
+  match tol, cur with
+  | some t, _ => t
+  | none, some t => t
+  | none, none => defaultTol
+
 /-- the merge function selected by (criterion, tolerance) given the current one; shared by
 the constructor and `set_merge` -/
 def selectMerge (cur : Option MergeFn) (crit : Option CritArg) (tol : Option Rat) : Except Err MergeFn :=
@@ -293,11 +301,7 @@ def selectMerge (cur : Option MergeFn) (crit : Option CritArg) (tol : Option Rat
     match Crit.ofName? s with
     | none => .error .value
     | some c =>
-      let t := match tol, cur.bind MergeFn.tolerance? with
-        | some t, _ => t
-        | none, some t => t
-        | none, none => defaultTol
-      .ok (MergeFn.norm { crit := c, tol := t })
+      .ok (MergeFn.norm { crit := c, tol := tolChoice tol (cur.bind MergeFn.tolerance?) })
   | none =>
     match cur, tol with
     | some m, none => .ok m
